@@ -565,23 +565,39 @@ func first(a, _ []byte) []byte { return a }
 //@ spec rootOK(r) = r.pointer == nil || okRef(r)
 //@ spec rootLive(r) = r.pointer == nil || liveChild(r)
 
-//@ spec LeafOK_alpha(o) = as(alphaLeafNode, o).key.obj != nil && allocated(as(alphaLeafNode, o).key.obj) && 0 <= as(alphaLeafNode, o).key.idx && as(alphaLeafNode, o).key.idx + as(alphaLeafNode, o).len <= blen(as(alphaLeafNode, o).key.obj)
-//@ spec HeapOK_alpha() = forallref(o, implies(inT(o) && allocated(o) && o != nil && !pooled(o), NodeOK(o) && implies(atype(o) == leafT(), LeafOK_alpha(o))))
-//@ spec WF1_alpha(t) = t != nil && allocated(t) && atype(t) == typeid(alphaSortedTree) && leafT() == typeid(alphaLeafNode) && rootOK(t.root) && HeapOK_alpha()
-//@ spec WF1in_alpha(t) = WF1_alpha(t) && LinkedLive() && rootLive(t.root)
+//@ spec LeafOK_{alpha,unsigned,signed,float,compound}(o) = as($KINDLeafNode, o).key.obj != nil && allocated(as($KINDLeafNode, o).key.obj) && 0 <= as($KINDLeafNode, o).key.idx && as($KINDLeafNode, o).key.idx + as($KINDLeafNode, o).len <= blen(as($KINDLeafNode, o).key.obj)
+//@ spec HeapOK_{alpha,unsigned,signed,float,compound}() = forallref(o, implies(inT(o) && allocated(o) && o != nil && !pooled(o), NodeOK(o) && implies(atype(o) == leafT(), LeafOK_$KIND(o))))
+//@ spec WF1_{alpha,unsigned,signed,float,compound}(t) = t != nil && allocated(t) && atype(t) == typeid($KINDSortedTree) && leafT() == typeid($KINDLeafNode) && rootOK(t.root) && HeapOK_$KIND()
+//@ spec WF1in_{alpha,unsigned,signed,float,compound}(t) = WF1_$KIND(t) && LinkedLive() && rootLive(t.root)
 //@ spec sizeSane(t) = 0 <= t.size && t.size < 4611686018427387904
+//@ spec isNodeT(o) = atype(o) == typeid(node4) || atype(o) == typeid(node16) || atype(o) == typeid(node48) || atype(o) == typeid(node256)
+//@ spec slotOf(ref, t) = ref.obj != nil && allocated(ref.obj) && (ref.obj == t && ref.idx == 0 || inT(ref.obj) && isNodeT(ref.obj))
 
-//@ func (*alphaLeafNode[V]).getKey
+//@ func (*{alpha,unsigned,signed,float,compound}LeafNode[V]).getKey
 //@   inline
-//@ func (*alphaLeafNode[V]).getTransformKey
+//@ func (*{alpha,unsigned,signed,float,compound}LeafNode[V]).getTransformKey
 //@   inline
 //@ func (AlphabeticalOrderKey[K]).Transform
 //@   inline
 //@ func (AlphabeticalOrderKey[K]).Restore
 //@   inline
 
+// Generic (uninstantiated) numeric codecs as seen from the generic tree code: fresh buffer of
+// 1..8 bytes, both results the same slice, nothing else written. Justified by the proofs of
+// the twelve instantiations (C07); the generic body itself (a type switch on K) is not
+// executed symbolically.
+//@ func ({Unsigned,Signed,Float}BinaryKey[K]).Transform
+//@   ensures[fresh] fresh(result0) && result1.obj == result0.obj && result1.off == result0.off && result1.len == result0.len && result1.cap == result0.cap
+//@   ensures[len] 1 <= len(result0) && len(result0) <= 8 && cap(result0) == len(result0)
+//@   ensures[frame] frame()
+//@   assigns B
+//@ func ({Unsigned,Signed,Float}BinaryKey[K]).Restore
+//@   requires 1 <= len(b)
+//@   assigns nothing
+
 //@ func (*alphaSortedTree[K,V]).Search
 //@   opt bind K=[]byte
+//@   opt kind alpha
 //@   opt casts on
 //@   opt extent on
 //@   requires WF1in_alpha(t)
@@ -591,21 +607,47 @@ func first(a, _ []byte) []byte { return a }
 //@     invariant liveRef(n)
 //@     decreases len(keyS) - depth
 
-//@ spec isNodeT(o) = atype(o) == typeid(node4) || atype(o) == typeid(node16) || atype(o) == typeid(node48) || atype(o) == typeid(node256)
-//@ spec slotOf(ref, t) = ref.obj != nil && allocated(ref.obj) && (ref.obj == t && ref.idx == 0 || inT(ref.obj) && isNodeT(ref.obj))
+//@ func (*{unsigned,signed,float,compound}SortedTree[K,V]).Search
+//@   opt kind $KIND
+//@   opt casts on
+//@   opt extent on
+//@   requires WF1in_$KIND(t)
+//@   ensures[pure] frame()
+//@   loop 1 (depth)
+//@     invariant 0 <= depth && depth <= len(keyS)
+//@     invariant liveRef(n)
+//@     decreases len(keyS) - depth
 
-//@ func (*alphaSortedTree[K,V]).Size
+//@ func (*{alpha,unsigned,signed,float,compound}SortedTree[K,V]).Size
 //@   requires t != nil
 //@   ensures[result] result == t.size
 //@   ensures[pure] frame()
 
 //@ func (*alphaSortedTree[K,V]).Delete
 //@   opt bind K=[]byte
+//@   opt kind alpha
 //@   opt casts on
 //@   opt extent on
 //@   requires WF1in_alpha(t) && sizeSane(t)
 //@   assume_at_call (*nodeRef).deleteChild : implies(isMerge(*ptr) && survT(*ptr, b) != 4, survP(*ptr, b) != ptr.obj && as(node, survP(*ptr, b)).prefixLen + as(node4, (*ptr).pointer).prefixLen + 1 < 4294967296)
 //@   ensures[wf] WF1_alpha(t)
+//@   ensures[size] t.size == old(t.size) - ite(result, 1, 0)
+//@   ensures[noop_frame] implies(!result, frame())
+//@   loop 1 (depth)
+//@     invariant 0 <= depth && depth <= len(keyS)
+//@     invariant n.pointer == (*ref).pointer && n.tag == (*ref).tag
+//@     invariant liveRef(n)
+//@     invariant slotOf(ref, t) && ref.obj != n.pointer
+//@     invariant n.tag != 4 || ref.obj == t
+//@     decreases len(keyS) - depth
+
+//@ func (*{unsigned,signed,float,compound}SortedTree[K,V]).Delete
+//@   opt kind $KIND
+//@   opt casts on
+//@   opt extent on
+//@   requires WF1in_$KIND(t) && sizeSane(t)
+//@   assume_at_call (*nodeRef).deleteChild : implies(isMerge(*ptr) && survT(*ptr, b) != 4, survP(*ptr, b) != ptr.obj && as(node, survP(*ptr, b)).prefixLen + as(node4, (*ptr).pointer).prefixLen + 1 < 4294967296)
+//@   ensures[wf] WF1_$KIND(t)
 //@   ensures[size] t.size == old(t.size) - ite(result, 1, 0)
 //@   ensures[noop_frame] implies(!result, frame())
 //@   loop 1 (depth)
@@ -660,13 +702,14 @@ func first(a, _ []byte) []byte { return a }
 
 // prefixMismatch: length of agreement between key[depth:] and the compressed path of n;
 // when the path is longer than the 10 inline bytes the comparison continues in the
-// minimum leaf below n. Rung 1: bounds and purity only.
-//@ func prefixMismatch
-//@   opt leaf alphaLeafNode
+// minimum leaf below n. Rung 1: bounds and purity only. One contract variant per leaf type.
+//@ func prefixMismatch@{alpha,unsigned,signed,float,compound}
+//@   opt leaf $KINDLeafNode
+//@   opt kind $KIND
 //@   opt casts on
 //@   opt extent on
 //@   requires okRef(n) && liveChild(n) && n.tag != 4 && 0 <= depth && depth <= len(key)
-//@   requires leafT() == typeid(alphaLeafNode) && HeapOK_alpha() && LinkedLive()
+//@   requires leafT() == typeid($KINDLeafNode) && HeapOK_$KIND() && LinkedLive()
 //@   ensures[bound] 0 <= result && depth + result <= len(key)
 //@   ensures[short_path] implies(as(node, n.pointer).prefixLen <= 10, result <= as(node, n.pointer).prefixLen)
 //@   assigns nothing
@@ -679,12 +722,29 @@ func first(a, _ []byte) []byte { return a }
 
 //@ func (*alphaSortedTree[K,V]).Insert
 //@   opt bind K=[]byte
+//@   opt kind alpha
 //@   opt casts on
 //@   opt extent on
 //@   opt leaf alphaLeafNode
 //@   requires WF1in_alpha(t) && sizeSane(t)
+//@   assume_at_call minimum : HeapOKN() && LinkedLive()
 //@   ensures[size_accounting] t.size == old(t.size) + calls("Insert$1")
 //@   ensures[wf] WF1_alpha(t)
+//@   loop 1 (depth)
+//@     invariant 0 <= depth && depth <= len(keyS)
+//@     invariant n.pointer == (*ref).pointer && n.tag == (*ref).tag
+//@     invariant n.pointer != nil && liveRef(n)
+//@     invariant slotOf(ref, t) && ref.obj != n.pointer
+
+//@ func (*{unsigned,signed,float,compound}SortedTree[K,V]).Insert
+//@   opt kind $KIND
+//@   opt casts on
+//@   opt extent on
+//@   opt leaf $KINDLeafNode
+//@   requires WF1in_$KIND(t) && sizeSane(t)
+//@   assume_at_call minimum : HeapOKN() && LinkedLive()
+//@   ensures[size_accounting] t.size == old(t.size) + calls("Insert$1")
+//@   ensures[wf] WF1_$KIND(t)
 //@   loop 1 (depth)
 //@     invariant 0 <= depth && depth <= len(keyS)
 //@     invariant n.pointer == (*ref).pointer && n.tag == (*ref).tag
